@@ -36,8 +36,45 @@ def observable(w, ev, r):
             tuple(sorted((repr(k), repr(b.term)) for k, b in r.fields["_blocks"].items())), _labels(r))
 
 
+class _Relabelled:
+    """the same array carrying several odd-position labels (what contracting several odd tensors leaves behind): three labels on an odd
+    array, two on an even one, in the library's own order"""
+
+    def __init__(self, sp, labels):
+        self.sp, self.labels = sp, labels
+        self.ndim, self.duals, self.sym = sp.ndim, sp.duals, sp.sym
+
+    def describe(self):
+        return self.sp.describe() + f" labels={self.labels}"
+
+    def build(self, w):
+        x = self.sp.build(w)
+        ev = w.ev()
+        opc = w.prog.cls("FermionicOperator")
+        lt = w.prog.lookup_method(opc, "__lt__")
+        objs = [ev.apply(opc, [l, False], {}, None) for l in self.labels]
+        for i_ in range(len(objs)):
+            for j_ in range(len(objs) - 1 - i_):
+                if ev.truth(ev.call(lt, [objs[j_]], self_obj=objs[j_ + 1])):
+                    objs[j_], objs[j_ + 1] = objs[j_ + 1], objs[j_]
+        x.fields["_oddpos"] = tuple(objs)
+        return x
+
+
 def _adjoint_job(state, sp):
     prog, tier = state
+    wmap, cnt = _adjoint_one(prog, tier, sp)
+    odd = Model(sp.sym).parity(sp.charge)
+    if sp.ndim <= 2:
+        w2, c2 = _adjoint_one(prog, tier, _Relabelled(sp, (3, 1, 2) if odd else (2, 1)))
+        for k, v in w2.items():
+            wmap.setdefault(k, v)
+        for k, v in c2.items():
+            cnt[k] = cnt.get(k, 0) + v
+    return wmap, cnt
+
+
+def _adjoint_one(prog, tier, sp):
     w = World(prog)
     wit = Witness()
     where = sp.describe()
